@@ -32,7 +32,7 @@ worker() {
 for k in $(seq 0 $((N-1))); do worker r$k $k & done
 wait
 {
-  echo "# Regression of the corpus against the machinery at /verif commit $(git -C /verif rev-parse --short HEAD), /repo $(git -C /repo rev-parse --short HEAD)"
+  echo "# Regression of the corpus against the machinery at /verif commit $(echo $VERIF_SNAPSHOT | cut -c1-7), /repo $(git -C /repo rev-parse --short HEAD)"
   echo
   echo "seeded changes caught (exit=1 for the property's check): $(cat $OUT/res-*.txt | grep '^seed' | grep -c 'exit=1')/$(wc -l < $OUT/seeds.txt)"
   echo "harmless changes quiet (six times exit=0): $(cat $OUT/res-*.txt | grep '^benign' | grep -v 'exit=[12]' | grep -c 'exit=0')/$(wc -l < $OUT/benign.txt)"
